@@ -12,41 +12,6 @@ import (
 	"golang.org/x/tools/go/ssa"
 )
 
-type ModSet struct {
-	arrays map[string]*Sort
-	fresh  map[string]bool // written only at objects allocated during the call
-	ghost  map[string]*Sort
-}
-
-func newModSet() *ModSet {
-	return &ModSet{arrays: map[string]*Sort{}, fresh: map[string]bool{}, ghost: map[string]*Sort{}}
-}
-
-func (m *ModSet) add(name string, s *Sort, fresh bool) {
-	if _, ok := m.arrays[name]; ok {
-		m.fresh[name] = m.fresh[name] && fresh
-		return
-	}
-	m.arrays[name] = s
-	m.fresh[name] = fresh
-}
-
-func (m *ModSet) addAll(o *ModSet) {
-	for n, s := range o.arrays {
-		m.add(n, s, o.fresh[n])
-	}
-	for n, s := range o.ghost {
-		m.ghost[n] = s
-	}
-}
-
-type instrModSet struct {
-	locals map[*ssa.Alloc]bool
-	arrays map[string]*Sort
-	fresh  map[string]bool
-	ghost  map[string]*Sort
-}
-
 func calleeName(fn *ssa.Function) string {
 	if o := fn.Origin(); o != nil {
 		return o.String()
@@ -69,200 +34,6 @@ func addrRoot(v ssa.Value) ssa.Value {
 			return v
 		}
 	}
-}
-
-// instrMods: heap arrays / locals / ghosts an instruction may modify.
-func (ft *FuncTr) instrMods(in ssa.Instruction) (*instrModSet, error) {
-	return instrModsH(ft.w, ft.h, in, map[string]bool{})
-}
-
-func instrModsH(w *World, h *HeapCtx, in ssa.Instruction, visiting map[string]bool) (ms *instrModSet, err error) {
-	ms = &instrModSet{locals: map[*ssa.Alloc]bool{}, arrays: map[string]*Sort{}, fresh: map[string]bool{}, ghost: map[string]*Sort{}}
-	defer func() {
-		if r := recover(); r != nil {
-			if u, ok := r.(unsupportedErr); ok {
-				err = u
-				return
-			}
-			panic(r)
-		}
-	}()
-	addArrs := func(m map[string]*Sort, fresh bool) {
-		for n, s := range m {
-			if _, ok := ms.arrays[n]; ok {
-				ms.fresh[n] = ms.fresh[n] && fresh
-			} else {
-				ms.arrays[n] = s
-				ms.fresh[n] = fresh
-			}
-		}
-	}
-	switch x := in.(type) {
-	case *ssa.Alloc:
-		if x.Heap {
-			m := map[string]*Sort{}
-			h.arraysOfTypeMem(x.Type().(*types.Pointer).Elem(), m)
-			addArrs(m, true)
-			ms.ghost["$next"] = SInt
-		} else {
-			ms.locals[x] = true
-		}
-	case *ssa.Store:
-		root := addrRoot(x.Addr)
-		if al, ok := root.(*ssa.Alloc); ok && !al.Heap {
-			ms.locals[al] = true
-			return
-		}
-		fresh := false
-		if al, ok := root.(*ssa.Alloc); ok && al.Heap {
-			fresh = true
-		}
-		m := map[string]*Sort{}
-		if fa, ok := x.Addr.(*ssa.FieldAddr); ok {
-			h.arraysOfField(derefType(fa.X.Type()), fa.Field, m)
-		} else {
-			h.arraysOfTypeMem(x.Addr.Type().Underlying().(*types.Pointer).Elem(), m)
-		}
-		addArrs(m, fresh)
-	case *ssa.MapUpdate:
-		m := map[string]*Sort{}
-		h.arraysOfMap(x.Map.Type().Underlying().(*types.Map), m)
-		_, fresh := x.Map.(*ssa.MakeMap)
-		addArrs(m, fresh)
-	case *ssa.MakeMap:
-		m := map[string]*Sort{}
-		h.arraysOfMap(x.Type().Underlying().(*types.Map), m)
-		addArrs(m, true)
-		ms.ghost["$next"] = SInt
-	case *ssa.MakeSlice:
-		m := map[string]*Sort{}
-		h.arraysOfTypeMem(x.Type().Underlying().(*types.Slice).Elem(), m)
-		addArrs(m, true)
-		ms.ghost["$next"] = SInt
-	case *ssa.MakeClosure, *ssa.MakeInterface:
-	case ssa.CallInstruction:
-		if _, isGo := in.(*ssa.Go); isGo {
-			return
-		}
-		c := x.Common()
-		if b, ok := c.Value.(*ssa.Builtin); ok {
-			switch b.Name() {
-			case "append":
-				m := map[string]*Sort{}
-				h.arraysOfTypeMem(c.Args[0].Type().Underlying().(*types.Slice).Elem(), m)
-				addArrs(m, false)
-				ms.ghost["$next"] = SInt
-			case "copy":
-				if st, ok := c.Args[0].Type().Underlying().(*types.Slice); ok {
-					m := map[string]*Sort{}
-					h.arraysOfTypeMem(st.Elem(), m)
-					addArrs(m, false)
-				}
-			case "delete":
-				m := map[string]*Sort{}
-				h.arraysOfMap(c.Args[0].Type().Underlying().(*types.Map), m)
-				addArrs(m, false)
-			case "clear":
-				panic(unsupported("clear builtin"))
-			}
-			return
-		}
-		cm, e := w.calleeMods(h, c, visiting)
-		if e != nil {
-			err = e
-			return
-		}
-		addArrs(cm.arrays, false)
-		for n := range cm.arrays {
-			ms.fresh[n] = ms.fresh[n] || false
-			if cm.fresh[n] {
-				// fresh in callee stays fresh here
-				if _, had := ms.arrays[n]; had {
-					ms.fresh[n] = cm.fresh[n]
-				}
-			}
-		}
-		for n, s := range cm.ghost {
-			ms.ghost[n] = s
-		}
-	}
-	return
-}
-
-// arraysOfTypeMem: like arraysOfType but in-memory arrays ([N]T) are element-wise.
-func (h *HeapCtx) arraysOfTypeMem(ty types.Type, out map[string]*Sort) {
-	if at, ok := ty.Underlying().(*types.Array); ok {
-		h.arraysOfTypeMem(at.Elem(), out)
-		return
-	}
-	h.arraysOfType(ty, out)
-}
-
-// calleeMods: the modifies set of a call (declared, or inferred from the body).
-func (w *World) calleeMods(h *HeapCtx, c *ssa.CallCommon, visiting map[string]bool) (*ModSet, error) {
-	name, con, fn := w.resolveCallee(c)
-	if con == nil {
-		if name == "" {
-			// dynamic call of unknown function value: handled (or rejected) at translation time
-			return newModSet(), nil
-		}
-		return nil, unsupported("callee " + name + " needs a contract")
-	}
-	return w.modsOf(h, name, con, fn, visiting)
-}
-
-func (w *World) modsOf(h *HeapCtx, name string, con *Contract, fn *ssa.Function, visiting map[string]bool) (*ModSet, error) {
-	if con.ModDeclared || con.Trusted || fn == nil || len(fn.Blocks) == 0 {
-		pkg := w.pkgs[con.Pkg]
-		if pkg == nil && fn != nil {
-			pkg = w.pkgOfFunc(fn)
-		}
-		arrs, fresh, err := h.resolveModifies(pkg, con.Modifies)
-		if err != nil {
-			return nil, fmt.Errorf("%s: %v", name, err)
-		}
-		ms := newModSet()
-		for n, s := range arrs {
-			if strings.HasPrefix(n, "$") {
-				ms.ghost[n] = ghostSort(n)
-				continue
-			}
-			ms.add(n, s, fresh[n])
-		}
-		if len(ms.arrays) > 0 || con.Allocates {
-			ms.ghost["$next"] = SInt
-		}
-		return ms, nil
-	}
-	// inferred
-	if visiting[name] {
-		return newModSet(), nil // recursion: fixpoint approximation handled by caller including own writes
-	}
-	visiting[name] = true
-	defer delete(visiting, name)
-	ms := newModSet()
-	var walk func(f *ssa.Function) error
-	walk = func(f *ssa.Function) error {
-		for _, b := range f.Blocks {
-			for _, in := range b.Instrs {
-				im, err := instrModsH(w, h, in, visiting)
-				if err != nil {
-					return err
-				}
-				for n, s := range im.arrays {
-					ms.add(n, s, im.fresh[n])
-				}
-				for n, s := range im.ghost {
-					ms.ghost[n] = s
-				}
-			}
-		}
-		return nil
-	}
-	if err := walk(fn); err != nil {
-		return nil, fmt.Errorf("inferring modifies of %s: %v", name, err)
-	}
-	return ms, nil
 }
 
 func ghostSort(n string) *Sort {
@@ -313,12 +84,74 @@ func (ft *FuncTr) call(st *State, at *Term, in ssa.Instruction, c *ssa.CallCommo
 	if _, isB := c.Value.(*ssa.Builtin); !isB {
 		fnv = ft.val(c.Value)
 	}
-	return ft.callWith(st, at, in, c, v, args, fnv)
+	cname := ""
+	if sc := c.StaticCallee(); sc != nil {
+		cname = calleeName(sc)
+	} else if c.IsInvoke() {
+		cname = c.Method.Name()
+	}
+	if err := ft.anchored(st, nil, at, in, cname, true); err != nil {
+		return Val{}, err
+	}
+	var preCall *State
+	if len(ft.c.Anchored) > 0 {
+		preCall = st.clone()
+	}
+	r, err := ft.callWith(st, at, in, c, v, args, fnv)
+	if err != nil {
+		return r, err
+	}
+	if err := ft.anchored(st, preCall, at, in, cname, false); err != nil {
+		return Val{}, err
+	}
+	return r, nil
+}
+
+// anchored: intermediate assertions of the contract placed before/after calls of a given callee
+func (ft *FuncTr) anchored(st *State, preCall *State, at *Term, in ssa.Instruction, cname string, before bool) error {
+	if cname == "" {
+		return nil
+	}
+	for i, a := range ft.c.Anchored {
+		if a.Before != before {
+			continue
+		}
+		if !(cname == a.Callee || strings.HasSuffix(cname, "."+a.Callee) || strings.HasSuffix(cname, "/"+a.Callee)) {
+			continue
+		}
+		env := ft.newEnv(st)
+		env.pos = in.Pos()
+		env.pre = preCall
+		var side []*Term
+		env.side = &side
+		t, err := env.trBool(a.C.E)
+		if err != nil {
+			return fmt.Errorf("assert %s (%s:%d): %v", a.Callee, a.C.File, a.C.Line, err)
+		}
+		for _, s := range side {
+			ft.assume(at, s)
+		}
+		when := "after"
+		if before {
+			when = "before"
+		}
+		ft.assert(at, t, fmt.Sprintf("assert.%s[%s]", when, clauseID(a.C, i)), a.Callee, a.C.Text, in.Pos())
+	}
+	return nil
 }
 
 func (ft *FuncTr) callWith(st *State, at *Term, in ssa.Instruction, c *ssa.CallCommon, v ssa.Value, args []Val, fnv Val) (Val, error) {
 	if b, ok := c.Value.(*ssa.Builtin); ok {
 		return ft.builtin(st, at, in, c, b, args)
+	}
+	if ft.isRangeFuncCall(c) {
+		return ft.rangeFuncCall(st, at, in, c, args, fnv)
+	}
+	if sc := c.StaticCallee(); sc != nil && calleeName(sc) == "maps.Keys" {
+		return ft.mapsKeys(st, at, c, args)
+	}
+	if sc := c.StaticCallee(); sc != nil && calleeName(sc) == "sort.Slice" {
+		return ft.sortSlice(st, at, in, c, args)
 	}
 	sig := c.Signature()
 	name, con, fn := ft.w.resolveCallee(c)
@@ -455,22 +288,19 @@ func (ft *FuncTr) applyContract(st *State, at *Term, in ssa.Instruction, name st
 		ft.assert(at, t, "call.requires", short+"/"+clauseID(r, i), r.Text, pos)
 	}
 	// havoc
-	ms, err := ft.w.modsOf(ft.h, name, con, fn, map[string]bool{})
+	ms, err := ft.w.modsOfCall(ft.h, envPre, name, con, fn, map[string]bool{})
 	if err != nil {
 		return Val{}, err
 	}
-	ft.noteWrites(st, at, ms, short, pos)
+	ft.noteCalleeWrites(st, at, ms, short, pos)
 	oldNext := ft.h.nextID(pre)
-	for _, n := range sortedKeys(ms.arrays) {
-		srt := ms.arrays[n]
-		before := ft.h.arr(st, n, srt)
-		after := ft.d.Fresh(n+"_c", srt)
+	for _, n := range ms.names() {
+		am := ms.arrs[n]
+		before := ft.h.arr(st, n, am.sort)
+		after := ft.d.Fresh(n+"_c", am.sort)
 		ft.h.setArr(st, n, after)
-		if ms.fresh[n] {
-			p := &Term{"fp", SPtr}
-			ft.assume(at, Forall([]Bound{{"fp", SPtr}},
-				Implies(Or(IsNil(p), Lt(PObjID(p), oldNext)), Eq(Select(after, p), Select(before, p))),
-				[]*Term{Select(after, p)}))
+		if !am.whole {
+			ft.assume(at, frameCond(am, before, after, oldNext))
 		}
 	}
 	for _, n := range sortedKeys(ms.ghost) {
@@ -480,7 +310,7 @@ func (ft *FuncTr) applyContract(st *State, at *Term, in ssa.Instruction, name st
 		}
 		st.ghost[n] = nv
 	}
-	for _, n := range sortedKeys(ms.arrays) {
+	for _, n := range ms.names() {
 		ft.h.noteHavoc(st.heap[n], ft.h.nextID(st))
 	}
 	// results
@@ -538,33 +368,6 @@ func lastName(s string) string {
 		return s[i+1:]
 	}
 	return s
-}
-
-// noteWrites: frame obligations for the function's own declared modifies clause when a callee writes.
-func (ft *FuncTr) noteWrites(st *State, at *Term, ms *ModSet, callee string, pos token.Pos) {
-	if ft.ownMod == nil {
-		return
-	}
-	for _, n := range sortedKeys(ms.arrays) {
-		if _, ok := ft.ownMod.arrays[n]; ok && !ft.ownMod.fresh[n] {
-			continue
-		}
-		if ms.fresh[n] {
-			continue // callee writes only at objects fresh for it, hence fresh for us
-		}
-		ft.assert(at, TFalse, "frame", n+"/"+callee, "callee may write "+n+" which is not in this function's modifies clause", pos)
-	}
-}
-
-// onWrite: frame obligation for a direct heap write
-func (ft *FuncTr) onWrite(st *State, at *Term, name string, addr *Term, pos token.Pos) {
-	if ft.ownMod == nil {
-		return
-	}
-	if _, ok := ft.ownMod.arrays[name]; ok && !ft.ownMod.fresh[name] {
-		return
-	}
-	ft.assert(at, And(Not(IsNil(addr)), Le(ft.h.nextID(ft.init), PObjID(addr))), "frame", name, "write to "+name+" outside the modifies clause must target a fresh object", pos)
 }
 
 // ---------- builtins ----------
@@ -669,10 +472,19 @@ func (ft *FuncTr) appendBuiltin(st *State, at *Term, in ssa.Instruction, c *ssa.
 		arrs0 := map[string]*Sort{}
 		ft.h.arraysOfTypeMem(elem, arrs0)
 		for _, an := range sortedKeys(arrs0) {
-			if _, ok := ft.ownMod.arrays[an]; ok && !ft.ownMod.fresh[an] {
+			am := ft.ownMod.arrs[an]
+			if am != nil && am.whole {
 				continue
 			}
-			ft.assert(at, Or(grow, Le(ft.h.nextID(ft.init), PObjID(SlcArr(s)))), "frame", an+"/append", "append in place must target a fresh array or be in the modifies clause", in.Pos())
+			allowed := []*Term{grow, Le(ft.h.nextID(ft.init), PObjID(SlcArr(s)))}
+			if am != nil {
+				for _, l := range am.locs {
+					if l.kind == LocElems {
+						allowed = append(allowed, Eq(SlcArr(l.t), SlcArr(s)))
+					}
+				}
+			}
+			ft.assert(at, Or(allowed...), "frame", an+"/append", "append in place must target a fresh array or be covered by the modifies clause", in.Pos())
 		}
 	}
 	arrs := map[string]*Sort{}
@@ -690,6 +502,12 @@ func (ft *FuncTr) appendBuiltin(st *State, at *Term, in ssa.Instruction, c *ssa.
 		fromOld := Select(before, PElem(SlcArr(s), Add(SlcOff(s), idx)))
 		body := Eq(Select(after, p), Ite(inAdd, fromAdd, Ite(inCopy, fromOld, Select(before, p))))
 		ft.assume(at, Forall([]Bound{{"ap", SPtr}}, body, []*Term{Select(after, p)}))
+		// redundant index-level consequences (they carry the triggers quantified invariants need)
+		jq := &Term{"aj", SInt}
+		ft.assume(at, Forall([]Bound{{"aj", SInt}}, Implies(And(Le(IntLit(0), jq), Lt(jq, SlcLen(s))),
+			Eq(Select(after, SlcElemAddr(res, jq)), Select(before, SlcElemAddr(s, jq)))), []*Term{SlcElemAddr(res, jq)}, []*Term{SlcElemAddr(s, jq)}))
+		ft.assume(at, Forall([]Bound{{"aj", SInt}}, Implies(And(Le(IntLit(0), jq), Lt(jq, SlcLen(add))),
+			Eq(Select(after, SlcElemAddr(res, Add(SlcLen(s), jq))), Select(before, SlcElemAddr(add, jq)))), []*Term{SlcElemAddr(add, jq)}))
 		ft.h.setArr(st, an, after)
 	}
 	return Val{T: res}, nil
@@ -710,8 +528,17 @@ func (ft *FuncTr) copyBuiltin(st *State, at *Term, in ssa.Instruction, c *ssa.Ca
 	inT, idx := isElemOf(p, SlcArr(dst))
 	for _, an := range sortedKeys(arrs) {
 		if ft.ownMod != nil {
-			if _, ok := ft.ownMod.arrays[an]; !(ok && !ft.ownMod.fresh[an]) {
-				ft.assert(at, Or(Eq(n, IntLit(0)), Le(ft.h.nextID(ft.init), PObjID(SlcArr(dst)))), "frame", an+"/copy", "copy must target a fresh array or be in the modifies clause", in.Pos())
+			am := ft.ownMod.arrs[an]
+			if am == nil || !am.whole {
+				allowed := []*Term{Eq(n, IntLit(0)), Le(ft.h.nextID(ft.init), PObjID(SlcArr(dst)))}
+				if am != nil {
+					for _, l := range am.locs {
+						if l.kind == LocElems {
+							allowed = append(allowed, Eq(SlcArr(l.t), SlcArr(dst)))
+						}
+					}
+				}
+				ft.assert(at, Or(allowed...), "frame", an+"/copy", "copy must target a fresh array or be covered by the modifies clause", in.Pos())
 			}
 		}
 		srt := arrs[an]
@@ -832,4 +659,23 @@ func bindSV(b Val, fv *ssa.FreeVar) SV {
 		return SV{T: b.T, Ty: ty}
 	}
 	return SV{Addr: b.T, Ty: ty}
+}
+
+func isIterSeq(t types.Type) bool {
+	n, ok := t.(*types.Named)
+	if !ok {
+		if a, ok2 := t.(*types.Alias); ok2 {
+			return isIterSeq(types.Unalias(a))
+		}
+		return false
+	}
+	o := n.Obj()
+	return o != nil && o.Pkg() != nil && o.Pkg().Path() == "iter" && (o.Name() == "Seq" || o.Name() == "Seq2")
+}
+
+func (ft *FuncTr) isRangeFuncCall(c *ssa.CallCommon) bool {
+	if c.IsInvoke() || c.StaticCallee() != nil {
+		return false
+	}
+	return isIterSeq(c.Value.Type())
 }
